@@ -166,7 +166,7 @@ theorem luaToRespList_fixed (q : Quirks) (h : q.l2rFixed) (vs : List LuaVal) :
   | cons v t => simp [luaToRespList, luaToResp_fixed q h v, luaToRespList_fixed q h t]
 end
 
-/-! ### the fragment on which the current code agrees with the standard table -/
+/-! ### the fragment on which EVERY variant (whatever switches are on) agrees with the standard table -/
 
 mutual
 /-- replies that reach Lua as the standard table prescribes: integers, valid-UTF-8 bulk strings,
@@ -183,11 +183,11 @@ def agreeRList : List Frame → Bool
 end
 
 mutual
-theorem respToLua_code_agree (f : Frame) (h : agreeR f = true) :
-    respToLua Quirks.code f = respToLua Quirks.spec f := by
+theorem respToLua_agree (q : Quirks) (f : Frame) (h : agreeR f = true) :
+    respToLua q f = respToLua Quirks.spec f := by
   cases f with
   | array xs =>
-    have := respToLuaList_code_agree xs (by simpa [agreeR] using h)
+    have := respToLuaList_agree q xs (by simpa [agreeR] using h)
     simp [respToLua, this]
   | int n => simp [respToLua]
   | error b => simp [respToLua]
@@ -202,13 +202,13 @@ theorem respToLua_code_agree (f : Frame) (h : agreeR f = true) :
   | double l => simp [agreeR] at h
   | map l => simp [agreeR] at h
   | set l => simp [agreeR] at h
-theorem respToLuaList_code_agree (fs : List Frame) (h : agreeRList fs = true) :
-    respToLuaList Quirks.code fs = respToLuaList Quirks.spec fs := by
+theorem respToLuaList_agree (q : Quirks) (fs : List Frame) (h : agreeRList fs = true) :
+    respToLuaList q fs = respToLuaList Quirks.spec fs := by
   cases fs with
   | nil => simp [respToLuaList]
   | cons f t =>
     simp only [agreeRList, Bool.and_eq_true] at h
-    simp [respToLuaList, respToLua_code_agree f h.1, respToLuaList_code_agree t h.2]
+    simp [respToLuaList, respToLua_agree q f h.1, respToLuaList_agree q t h.2]
 end
 
 mutual
@@ -235,12 +235,12 @@ theorem luaToRespList_isEmpty (q : Quirks) (vs : List LuaVal) : (luaToRespList q
   | cons v t => by_cases hv : v.isNil = true <;> simp [luaToRespList, untilNil, hv]
 
 mutual
-theorem luaToResp_code_agree (v : LuaVal) (h : agreeL v = true) :
-    luaToResp Quirks.code v = luaToResp Quirks.spec v := by
+theorem luaToResp_agree (q : Quirks) (v : LuaVal) (h : agreeL v = true) :
+    luaToResp q v = luaToResp Quirks.spec v := by
   cases v with
   | table xs =>
     simp only [agreeL, Bool.and_eq_true, Bool.not_eq_true'] at h
-    have hl := luaToRespList_code_agree xs h.2
+    have hl := luaToRespList_agree q xs h.2
     have he : (luaToRespList Quirks.spec xs).isEmpty = false := by rw [luaToRespList_isEmpty]; exact h.1
     simp only [luaToResp, hl, he]
     simp [Quirks.spec]
@@ -255,15 +255,15 @@ theorem luaToResp_code_agree (v : LuaVal) (h : agreeL v = true) :
   | str b => simp [luaToResp]
   | errTable m => simp [agreeL] at h
   | statusTable m => simp [agreeL] at h
-theorem luaToRespList_code_agree (vs : List LuaVal) (h : agreeLList vs = true) :
-    luaToRespList Quirks.code vs = luaToRespList Quirks.spec vs := by
+theorem luaToRespList_agree (q : Quirks) (vs : List LuaVal) (h : agreeLList vs = true) :
+    luaToRespList q vs = luaToRespList Quirks.spec vs := by
   cases vs with
   | nil => simp [luaToRespList]
   | cons v t =>
     by_cases hv : v.isNil = true
     · simp [luaToRespList, hv]
     · simp only [agreeLList, hv, Bool.false_or, Bool.and_eq_true] at h
-      simp [luaToRespList, hv, luaToResp_code_agree v h.1, luaToRespList_code_agree t h.2]
+      simp [luaToRespList, hv, luaToResp_agree q v h.1, luaToRespList_agree q t h.2]
 end
 
 /-! ### a call result returned as it is: reply → Lua → reply -/
@@ -275,7 +275,7 @@ def viaLua (q : Quirks) (f : Frame) : Frame :=
   | v => luaToResp q v
 
 mutual
-/-- replies the current code hands back unchanged from inside an array: integers below 2^53,
+/-- replies every variant hands back unchanged from inside an array: integers below 2^53,
     valid-UTF-8 bulk strings, non-empty arrays of such -/
 def transparentIn : Frame → Bool
   | .int n => decide (n.natAbs < two53)
@@ -298,8 +298,8 @@ theorem respToLua_errTable_iff (q : Quirks) (f : Frame) (m : Bytes) :
   cases f <;> simp [respToLua] <;> (try split) <;> simp
 
 mutual
-theorem transparentIn_code (f : Frame) (h : transparentIn f = true) :
-    luaToResp Quirks.code (respToLua Quirks.code f) = f ∧ (respToLua Quirks.code f).isNil = false := by
+theorem transparentIn_any (q : Quirks) (f : Frame) (h : transparentIn f = true) :
+    luaToResp q (respToLua q f) = f ∧ (respToLua q f).isNil = false := by
   cases f with
   | int n =>
     have hn : n.natAbs < two53 := by simpa [transparentIn] using h
@@ -309,7 +309,7 @@ theorem transparentIn_code (f : Frame) (h : transparentIn f = true) :
     simp [respToLua, luaToResp, ls_valid _ b hv, LuaVal.isNil]
   | array xs =>
     simp only [transparentIn, Bool.and_eq_true, Bool.not_eq_true'] at h
-    have hl := transparentList_code xs h.2
+    have hl := transparentList_any q xs h.2
     have he : xs.isEmpty = false := h.1
     refine ⟨?_, by simp [respToLua, LuaVal.isNil]⟩
     simp only [respToLua, luaToResp, hl, he]
@@ -323,28 +323,28 @@ theorem transparentIn_code (f : Frame) (h : transparentIn f = true) :
   | double l => simp [transparentIn] at h
   | map l => simp [transparentIn] at h
   | set l => simp [transparentIn] at h
-theorem transparentList_code (fs : List Frame) (h : transparentList fs = true) :
-    luaToRespList Quirks.code (respToLuaList Quirks.code fs) = fs := by
+theorem transparentList_any (q : Quirks) (fs : List Frame) (h : transparentList fs = true) :
+    luaToRespList q (respToLuaList q fs) = fs := by
   cases fs with
   | nil => simp [respToLuaList, luaToRespList]
   | cons f t =>
     simp only [transparentList, Bool.and_eq_true] at h
-    have h1 := transparentIn_code f h.1
-    have h2 := transparentList_code t h.2
+    have h1 := transparentIn_any q f h.1
+    have h2 := transparentList_any q t h.2
     simp [respToLuaList, luaToRespList, h1.1, h1.2, h2]
 end
 
-theorem viaLua_code_transparent (f : Frame) (h : transparent f = true) : viaLua Quirks.code f = f := by
+theorem viaLua_transparent (q : Quirks) (f : Frame) (h : transparent f = true) : viaLua q f = f := by
   cases f with
   | error b => simp [viaLua, respToLua]
   | int n =>
-    have := transparentIn_code (.int n) (by simpa [transparent] using h)
+    have := transparentIn_any q (.int n) (by simpa [transparent] using h)
     simp [viaLua, respToLua] at this ⊢; exact this.1
   | bulk b =>
-    have := transparentIn_code (.bulk b) (by simpa [transparent] using h)
+    have := transparentIn_any q (.bulk b) (by simpa [transparent] using h)
     simp [viaLua, respToLua] at this ⊢; exact this.1
   | array xs =>
-    have := transparentIn_code (.array xs) (by simpa [transparent] using h)
+    have := transparentIn_any q (.array xs) (by simpa [transparent] using h)
     simp [viaLua, respToLua] at this ⊢; exact this.1
   | simple b => simp [transparent, transparentIn] at h
   | nullBulk => simp [transparent, transparentIn] at h
